@@ -293,6 +293,12 @@ def run(ctx):
     from .c18 import rule_per_validator_resolver
     rule_per_validator_resolver(ctx, "R2.11")
     scope.rule_scope_entered(ctx, "R2.12")
+    scope.rule_who_raises_ref_error(ctx, "R2.13")
+    # R2.14: what a URI designates is what the store holds for it: outside the constructor the store is written in one place, under
+    # the URL a document was retrieved for -- never under an id the retrieved document claims for itself (that would replace the
+    # referrer or a caller-supplied document)
+    from .c15 import rule_store_writes
+    rule_store_writes(ctx, "R2.14")
     # R2.9: "obtainable through a handler": a handler registered for the scheme is what retrieves, before any built-in retrieval
     from .c15 import rule_handler_selection
     rule_handler_selection(ctx, "R2.9")
